@@ -166,6 +166,31 @@ func (v *version) scoreEnumerations(thorough bool, zero []byte, mand []int) {
 			}
 		}
 		v.enumerate(zero, append(append([]int{}, mand...), temporal...), v.opScore)
+		// … and every base class with every requirement assignment: the complete effective domain of the
+		// environmental-inner equations (v2: 46,656; v3: 165,888 objects; Modified metrics X = base value)
+		var req []int
+		for i, mt := range v.metrics {
+			if mt.abv == "CR" || mt.abv == "IR" || mt.abv == "AR" {
+				req = append(req, i)
+			}
+		}
+		v.enumerate(zero, append(append([]int{}, mand...), req...), v.opScore)
+	}
+	// thorough, v4: every base class once more with random threat/requirement/Modified-safety values
+	if thorough && v.name == "40" {
+		v.enumerate(zero, mand, func(b []byte) {
+			nb := b
+			for _, a := range []string{"E", "CR", "IR", "AR", "MSI", "MSA"} {
+				for _, mt := range v.metrics {
+					if mt.abv == a {
+						if x, err := v.set(nb, a, pick(mt.values)); err == nil {
+							nb = x
+						}
+					}
+				}
+			}
+			v.opScore(nb)
+		})
 	}
 	// (a) every base class (all optional metrics not defined) — exhaustive for v2 (729) and v3 (2,592);
 	//     v4 has 104,976 base classes: exhaustive in thorough, a stride sample in quick
